@@ -55,6 +55,13 @@ def canonical (c : Config) : List Op :=
   [Op.setParamNames (renamePairs c.pmap), Op.setOutputs c.outputs, Op.setOutputNames (renamePairs c.omap)] ++
   canonRegimen c ++ canonSens b c ++ canonicalRed b c
 
+/-- `c` with the unobservable residue `_n_sensitivity_parameters` as a new object has it: the number of
+selected parameters while sensitivities are enabled, 0 otherwise -/
+def normCount (c : Config) : Config :=
+  { c with sensCount := match c.sens with
+      | some sel => sel.length
+      | none => 0 }
+
 /-! ## when the canonical calls reach the configuration -/
 
 def Canon.adminOK (c : Config) : Prop := match c.admin with
